@@ -196,7 +196,7 @@ def run_case(case, ctx):
 
 # ------------------------------------------------------------------------------------------ generators
 
-PAY = st.sampled_from(["a", "b"])
+PAY = st.sampled_from(["a", "b", "a", "b", None, 0, ""])   # falsy and None payloads: nothing may depend on the truth value of a payload
 IDX = st.integers(0, 20)
 OP = st.one_of(
     st.tuples(st.sampled_from(["append", "prepend"]), PAY),
@@ -215,7 +215,7 @@ def strategies(tier):
     hist = st.fixed_dictionaries({"kind": st.just("hist"), "init": st.one_of(st.none(), st.lists(PAY, max_size=8)),
                                   "ops": st.lists(OP, max_size=40)})
     long_ = st.fixed_dictionaries({"kind": st.just("long"), "n": st.sampled_from([400, 700, 1200, 3000]),
-                                   "payload": st.sampled_from([0, "x"]),
+                                   "payload": st.sampled_from([0, "x", None]),
                                    "ops": st.lists(OP.filter(lambda o: o[0] not in ("extend", "pre_extend")), min_size=1, max_size=5)})
     return [("histories", hist, 3000000 if big else 30000), ("long-runs", long_, 3000 if big else 84)]
 
